@@ -283,6 +283,43 @@ func ruleFLOATCONST1(c *Ctx) {
 		})
 	}
 	c.Floor("comparisons of a float with a constant", n, 6)
+	// the float32 range is decided by converting and testing for infinity: values up to half an ulp beyond
+	// MaxFloat32 still round to MaxFloat32, so `x > math.MaxFloat32` on a float64 refuses numbers that fit
+	k32 := 0
+	for _, f := range p.FuncsIn("json", "jsontext", "jsonwire", "v1") {
+		if f.Body() == nil {
+			continue
+		}
+		info := f.Info()
+		InspectNoLit(f.Body(), func(nd ast.Node) bool {
+			be, ok := nd.(*ast.BinaryExpr)
+			if !ok || !tokIsCmp(be.Op) {
+				return true
+			}
+			for _, pr := range [][2]ast.Expr{{be.X, be.Y}, {be.Y, be.X}} {
+				isMax32 := false
+				ast.Inspect(pr[1], func(m ast.Node) bool {
+					if o := IdentOrSelObj(info, asExpr(m)); o != nil && o.Pkg() != nil && o.Pkg().Path() == "math" && o.Name() == "MaxFloat32" {
+						isMax32 = true
+					}
+					return true
+				})
+				if !isMax32 {
+					continue
+				}
+				if t := info.TypeOf(pr[0]); t != nil {
+					if b, ok := t.Underlying().(*types.Basic); ok && b.Kind() == types.Float64 && info.Types[pr[0]].Value == nil {
+						k32++
+						c.Violation(fmt.Sprintf("float32-range-by-conversion:%s#%d", f.Name, k32), be.Pos(), "`"+exprString(be)+"` decides the float32 range by comparing a float64 with MaxFloat32: float64 values within half an ulp above MaxFloat32 convert to MaxFloat32 (finite) and are wrongly treated as out of range; convert and test for infinity instead")
+					}
+				}
+			}
+			return true
+		})
+	}
+	if k32 == 0 {
+		c.OK("float32-range-by-conversion", token.NoPos, "")
+	}
 }
 
 // ---- SKIP-1 ---------------------------------------------------------------------
@@ -803,4 +840,171 @@ func numwidthTokenFloats(c *Ctx) {
 		})
 	}
 	c.Floor("AppendFloat calls on float tokens", n, 4)
+}
+
+// ---- CHARSET-1 ------------------------------------------------------------------
+
+func init() {
+	register(&Rule{ID: "CHARSET-1", Doc: "character classes are whole alphabets: every closed range test on one byte or rune with character-literal bounds (`lo <= c && c <= hi`, or its complement `c < lo || hi < c`) in the implementation packages spans one of the reviewed alphabets 0-9, 1-9, a-f, A-F, c-f, C-F (low-surrogate nibble), a-z, A-Z — a bound that is off by one ('0'..'8', '\\t'..'\\r') silently changes the grammar", Run: ruleCHARSET1})
+}
+
+func ruleCHARSET1(c *Ctx) {
+	p := c.P
+	n := 0
+	alphabets := map[[2]int64]bool{{'0', '9'}: true, {'1', '9'}: true, {'a', 'f'}: true, {'A', 'F'}: true, {'c', 'f'}: true, {'C', 'F'}: true, {'a', 'z'}: true, {'A', 'Z'}: true}
+	isCharLit := func(e ast.Expr) (int64, bool) {
+		bl, ok := ast.Unparen(e).(*ast.BasicLit)
+		if !ok || bl.Kind != token.CHAR {
+			return 0, false
+		}
+		v, _ := constant.Int64Val(constant.MakeFromLiteral(bl.Value, bl.Kind, 0))
+		return v, true
+	}
+	// bound returns (subject text, value, isLower, inclusive) for `lit <= x`, `x >= lit`, `x <= lit`, `lit >= x` and strict forms
+	bound := func(e ast.Expr) (subj string, v int64, lower, strict, ok bool) {
+		be, isB := ast.Unparen(e).(*ast.BinaryExpr)
+		if !isB {
+			return
+		}
+		lv, lok := isCharLit(be.X)
+		rv, rok := isCharLit(be.Y)
+		switch {
+		case lok && !rok:
+			subj, v = exprString(be.Y), lv
+			switch be.Op {
+			case token.LEQ:
+				return subj, v, true, false, true
+			case token.LSS:
+				return subj, v, true, true, true
+			case token.GEQ:
+				return subj, v, false, false, true
+			case token.GTR:
+				return subj, v, false, true, true
+			}
+		case rok && !lok:
+			subj, v = exprString(be.X), rv
+			switch be.Op {
+			case token.GEQ:
+				return subj, v, true, false, true
+			case token.GTR:
+				return subj, v, true, true, true
+			case token.LEQ:
+				return subj, v, false, false, true
+			case token.LSS:
+				return subj, v, false, true, true
+			}
+		}
+		return "", 0, false, false, false
+	}
+	for _, f := range p.FuncsIn("jsonwire", "jsontext", "json", "v1") {
+		if f.Body() == nil {
+			continue
+		}
+		k := 0
+		InspectNoLit(f.Body(), func(nd ast.Node) bool {
+			be, ok := nd.(*ast.BinaryExpr)
+			if !ok || (be.Op != token.LAND && be.Op != token.LOR) {
+				return true
+			}
+			s1, v1, lo1, st1, ok1 := bound(be.X)
+			s2, v2, lo2, st2, ok2 := bound(be.Y)
+			if !ok1 || !ok2 || s1 != s2 || lo1 == lo2 {
+				return true
+			}
+			lo, hi := v1, v2
+			stLo, stHi := st1, st2
+			if !lo1 {
+				lo, hi = v2, v1
+				stLo, stHi = st2, st1
+			}
+			if be.Op == token.LAND {
+				// lo <= x && x <= hi
+				if stLo {
+					lo++
+				}
+				if stHi {
+					hi--
+				}
+			} else {
+				// complement: x < lo' || x > hi'  — the operands are the outside: `x < A` is an upper bound (not lower)
+				// here lower==true means `x >= v`/`x > v`, which in an || is the upper outside part
+				outHi, outLo := lo, hi // x > outHi-ish , x < outLo-ish
+				if stLo {              // x > v : inside ends at v
+					outHi = lo
+				} else { // x >= v : inside ends at v-1
+					outHi = lo - 1
+				}
+				if stHi { // x < v : inside starts at v
+					outLo = hi
+				} else {
+					outLo = hi + 1
+				}
+				lo, hi = outLo, outHi
+			}
+			if lo > hi || hi >= 0x80 || lo < 0x09 {
+				return true // code-point ranges (surrogates, planes) are not character classes of the grammar
+			}
+			n++
+			k++
+			c.Oblige(fmt.Sprintf("alphabet:%s#%d", f.Name, k), be.Pos(), alphabets[[2]int64{lo, hi}],
+				fmt.Sprintf("`%s` spans %q..%q, which is none of the reviewed alphabets (0-9, 1-9, a-f, A-F, c-f, C-F, a-z, A-Z): a bound is off", exprString(be), rune(lo), rune(hi)))
+			return true
+		})
+	}
+	c.Floor("character range tests", n, 15)
+	// one-sided tests: an ordered comparison of a byte with a letter or digit that has no partner bound on the
+	// same subject in the same && / || expression leaves the class open-ended
+	m := 0
+	for _, f := range p.FuncsIn("jsonwire", "jsontext", "json", "v1") {
+		if f.Body() == nil {
+			continue
+		}
+		info := f.Info()
+		k := 0
+		InspectNoLit(f.Body(), func(nd ast.Node) bool {
+			be, ok := nd.(*ast.BinaryExpr)
+			if !ok {
+				return true
+			}
+			switch be.Op {
+			case token.LSS, token.LEQ, token.GTR, token.GEQ:
+			default:
+				return true
+			}
+			s1, v1, _, _, ok1 := bound(be)
+			if !ok1 {
+				return true
+			}
+			isAlnum := (v1 >= '0' && v1 <= '9') || (v1 >= 'a' && v1 <= 'z') || (v1 >= 'A' && v1 <= 'Z')
+			if !isAlnum {
+				return true
+			}
+			if t := info.TypeOf(be.X); t != nil {
+				if b, ok := t.Underlying().(*types.Basic); !ok || (b.Kind() != types.Uint8 && b.Kind() != types.Int32 && b.Kind() != types.UntypedRune) {
+					return true
+				}
+			}
+			m++
+			paired := false
+			if par, ok := p.Parent(f.File, be).(*ast.BinaryExpr); ok && (par.Op == token.LAND || par.Op == token.LOR) {
+				other := par.X
+				if ast.Unparen(other) == ast.Expr(be) {
+					other = par.Y
+				}
+				if s2, _, _, _, ok2 := bound(other); ok2 && s2 == s1 {
+					paired = true
+				}
+			}
+			k++
+			c.Oblige(fmt.Sprintf("two-sided:%s#%d", f.Name, k), be.Pos(), paired,
+				"`"+exprString(be)+"` bounds the character class on one side only: every byte beyond the letter or digit (punctuation, DEL, non-ASCII) falls into the class as well")
+			return true
+		})
+	}
+	c.Floor("ordered comparisons with a letter or digit", m, 30)
+}
+
+func asExpr(n ast.Node) ast.Expr {
+	e, _ := n.(ast.Expr)
+	return e
 }
